@@ -276,3 +276,79 @@ pub fn stub_wmul(_v: usize, range: usize) -> (usize, usize) {
     }
     (j, 0)
 }
+
+/// Environment record drawn by a float stub: 12 bytes, the first 8 are the f64
+/// bit pattern.  The odd size lets the native replay driver skip these entries
+/// (natively the real libm function runs and draws nothing).
+#[cfg(kani)]
+fn env_f64() -> f64 {
+    let raw: [u8; 12] = kani::any();
+    let b = [raw[0], raw[1], raw[2], raw[3], raw[4], raw[5], raw[6], raw[7]];
+    f64::from_bits(u64::from_le_bytes(b))
+}
+
+/// Sound over-approximation of `f64::ln` (replaces CBMC's loose built-in model):
+/// any value between the elementary bounds 1 - 1/x <= ln x <= x - 1 (with a 1e-6
+/// relative slack for rounding), sign-correct, exact at 1, and never below
+/// ln(min positive subnormal) ~ -745.2.
+#[cfg(kani)]
+pub fn stub_ln(x: f64) -> f64 {
+    if x.is_nan() || x < 0.0 {
+        return f64::NAN;
+    }
+    if x == 0.0 {
+        return f64::NEG_INFINITY;
+    }
+    if x == f64::INFINITY {
+        return f64::INFINITY;
+    }
+    if x == 1.0 {
+        return 0.0;
+    }
+    let r = env_f64();
+    kani::assume(r.is_finite());
+    kani::assume(r >= -746.0 && r <= 710.0);
+    if x < 1.0 {
+        kani::assume(r < 0.0);
+        kani::assume(r <= (x - 1.0) * 0.999999);
+        kani::assume(r >= (1.0 - 1.0 / x) * 1.000001);
+    } else {
+        kani::assume(r > 0.0);
+        kani::assume(r <= (x - 1.0) * 1.000001);
+        kani::assume(r >= (1.0 - 1.0 / x) * 0.999999);
+    }
+    r
+}
+
+/// Sound over-approximation of `f64::log2`: exact on powers of two in [2^-64, 2^64],
+/// otherwise strictly between the neighbouring integer exponents.
+#[cfg(kani)]
+pub fn stub_log2(x: f64) -> f64 {
+    if x.is_nan() || x < 0.0 {
+        return f64::NAN;
+    }
+    if x == 0.0 {
+        return f64::NEG_INFINITY;
+    }
+    if x == f64::INFINITY {
+        return f64::INFINITY;
+    }
+    let r = env_f64();
+    kani::assume(r.is_finite());
+    kani::assume(r >= -1075.0 && r <= 1024.0);
+    // bracket by the binary exponent: 2^e <= x < 2^(e+1)  =>  e <= log2 x < e+1
+    let bits = x.to_bits();
+    let exp = ((bits >> 52) & 0x7ff) as i64;
+    let mant = bits & ((1u64 << 52) - 1);
+    if exp != 0 {
+        let e = (exp - 1023) as f64;
+        if mant == 0 {
+            kani::assume(r == e);
+        } else {
+            kani::assume(r > e && r < e + 1.0);
+        }
+    } else {
+        kani::assume(r < -1022.0);
+    }
+    r
+}
